@@ -104,8 +104,15 @@ func genWriteOp(rng *vlib.Rand, backend string, dirs []string, nkeys int) OpSpec
 		kind = pickKind(rng, []string{"put", "putnew", "del", "putdel", "secret", "crown", "insert", "expiry"}, []int{46, 8, 12, 8, 6, 5, 8, 7})
 	}
 	op := OpSpec{Kind: kind, Dir: vlib.Pick(rng, dirs...), N: rng.Intn(nkeys)}
+	if rng.Chance(7, 100) {
+		// a wrapped record (what API clients write) in one of the dsd formats, on keys
+		// of its own (a re-put would load a record whose token cannot be read back)
+		kind = "putwrap"
+		op.Kind, op.N = kind, 50+rng.Intn(4)
+		op.Format = vlib.Pick(rng, "json", "cbor", "msgpack", "yaml", "raw", "gencode", "empty")
+	}
 	switch kind {
-	case "put", "putnew", "push", "putdel":
+	case "put", "putnew", "push", "putdel", "putwrap":
 		op.Score, op.Tag = genScore(rng), vlib.Pick(rng, tags...)
 		op.PreSecret = rng.Chance(8, 100)
 		op.PreCrown = rng.Chance(8, 100)
